@@ -1,5 +1,6 @@
 import EkwVerif.Drive.Util
 import EkwVerif.Model.Gateway
+import EkwVerif.Model.Base64
 open Lean EkwVerif.Drive EkwVerif.Gateway
 
 def pairs (l : List Json) : List (String × String) :=
@@ -22,6 +23,7 @@ def outJson : Out → Json
   | .progress (some l) => Json.mkObj [("progress", Json.arr (l.map (fun p => Json.arr #[Json.str p.1, Json.str p.2])).toArray)]
   | .result r => Json.mkObj [("result", optStr r)]
   | .bye => Json.mkObj [("bye", Json.bool true)]
+  | .rejected => Json.mkObj [("rejected", Json.bool true)]
   | .reported .ok => Json.mkObj [("reported", Json.str "ok")]
   | .reported .error => Json.mkObj [("reported", Json.str "error")]
   | .notRead => Json.str "notRead"
@@ -34,12 +36,23 @@ def phaseStr : Phase → String
   | .stopped => "stopped"
   | .dead => "dead"
 
+def hexVal (c : Char) : Nat :=
+  if c.isDigit then c.toNat - 48 else if c.toNat ≥ 97 ∧ c.toNat ≤ 102 then c.toNat - 87 else 0
+
+def bytesOfHex : List Char → List Nat
+  | a :: b :: r => (hexVal a * 16 + hexVal b) :: bytesOfHex r
+  | _ => []
+
 def c18Step (g : G) (j : Json) : G × Json :=
   match getStr j "op" with
   | "reset" => (G.init, Json.str "reset")
   | "poll" =>
     let r := poll g ((getArr j "events").map evOf)
     (r.g, Json.mkObj [("outs", Json.arr (r.outs.map outJson).toArray), ("phase", Json.str (phaseStr r.g.phase))])
+  | "b64" =>
+    let bs := bytesOfHex (getStr j "hex").toList
+    let txt := EkwVerif.B64.encode bs
+    (g, Json.mkObj [("text", Json.str (String.ofList txt)), ("back", Json.bool (EkwVerif.B64.decode txt == some bs))])
   | _ => (g, Json.str "bad-op")
 
 def main : IO Unit := runLoop G.init c18Step
